@@ -1,5 +1,6 @@
 """C07 — the demes always form a well-formed tree; sprout seeds come from the parent."""
 from . import _whole
+from ..custom_engines import custom_engines
 
 
 def nontrivial(r):
@@ -10,10 +11,11 @@ _whole.install(globals(), "C07",
                text="Machine invariant WFT for every accepted event stream: a root with no parent on level 0, every other deme has exactly one parent created before it on the level above "
                     "and started no earlier, levels below the configured height only, 0 <= started_at <= metaepoch counter, structure never rewritten; demes created by a round are children "
                     "of the deme their seed came from; ids (parent's id + number of demes already on the level) are unique. Tie: machine replay comparing level/parent/started_at/flags of every deme at every boundary; the monitor checks ids, engine classes, "
-                    "child lists and that every seed is an individual of the parent's population at the moment of sprouting (and in the child's initial population).",
+                    "child lists and that every seed is an individual of the parent's population at the moment of sprouting (and in the child's initial population); sessions of trees that "
+                    "each register their own deme class for one user-defined level configuration class (config_class_to_deme_class) must build demes of the class their own tree registers.",
                note="The seed clauses are decided on real rounds by the monitor and by the history machine's strict HBegin events (seed = an individual of the parent's current generation); the machine replay compares the last component of every id string.",
                technique="Coq invariant (well-formed forest) over all event streams + vm_compute trace replay against the real package",
-               front_ends=["driver", "ctor"], quick=240, thorough=6000, nontrivial=nontrivial, extra_checks=[_whole.make_sessions("C07", {"height": 2, "sprout": {"kind": "nbc", "gen_dist": 1.0, "trunc": 1.0, "fil_dist": 0.0, "level_limit": 4}, "gsc": {"kind": "MetaepochLimit", "n": 2}})],
+               front_ends=["driver", "ctor"], quick=240, thorough=6000, nontrivial=nontrivial, extra_checks=[custom_engines, _whole.make_sessions("C07", {"height": 2, "sprout": {"kind": "nbc", "gen_dist": 1.0, "trunc": 1.0, "fil_dist": 0.0, "level_limit": 4}, "gsc": {"kind": "MetaepochLimit", "n": 2}})],
                forces=[(2, None), (2, {"height": 3}), (1, {"height": 3, "objective_kind": "plateau", "engines": ["SEA", "SEA", "DE"]}),
                        (1, {"height": 2, "narrowing_boxes": True, "wrappers": "none", "box_style": "sym", "objective_kind": "funnel", "engines": ["SEA", "SEA"], "dim": 2, "levels_patch": [{}, {"sample_std": 3.0}]}),
                        (1, {"height": 3, "narrowing_boxes": True, "wrappers": "none", "box_style": "sym", "engines": ["DE", "SEA", "DE"], "dim": 2, "levels_patch": [{}, {"sample_std": 3.0}, {"sample_std": 3.0}]})])
